@@ -538,3 +538,32 @@ Definition rx_flat_b (r : regex) : bool :=
 
 Definition rx_wf_b (pool : rpool) (r : regex) : bool :=
   rx_cover_b r && forallb (fun q : N * regex => rx_flat_b (snd q) && rx_cover_b (snd q)) pool.
+
+(** what makes [rx_items] return (no panic, fuel suffices): the children of a node have smaller
+    indices (the arena is built bottom-up by [alloc]), every leaf's position holds an input of the
+    leaf's kind, every within-word input names a regex of the pool, the root exists *)
+Definition rx_node_ok (pool : rpool) (r : regex) (n : N) (x : rnode) : bool :=
+  match x with
+  | REps | REnd _ | RStar _ => true
+  | RCat l | ROr l => forallb (fun c => c <? n) l
+  | RTerm pos => match nthN (r_inputs r) pos with Some (RLit _ _) => true | _ => false end
+  | RNt pos => match nthN (r_inputs r) pos with Some (RNonterm _) => true | _ => false end
+  | RCommand pos => match nthN (r_inputs r) pos with Some (RCmd _) => true | _ => false end
+  | RSubword pos =>
+      match nthN (r_inputs r) pos with
+      | Some (RSub rid) => match assocN rid pool with Some _ => true | None => false end
+      | _ => false
+      end
+  end.
+
+Fixpoint rx_nodes_ok (pool : rpool) (r : regex) (n : N) (l : list rnode) : bool :=
+  match l with
+  | [] => true
+  | x :: rest => rx_node_ok pool r n x && rx_nodes_ok pool r (n + 1) rest
+  end.
+
+Definition rx_arena_ok (pool : rpool) (r : regex) : bool :=
+  (r_root r <? lenN (r_nodes r)) && rx_nodes_ok pool r 0 (r_nodes r).
+
+Definition rx_total_b (pool : rpool) (r : regex) : bool :=
+  rx_arena_ok pool r && forallb (fun q : N * regex => rx_arena_ok pool (snd q) && rx_flat_b (snd q)) pool.
